@@ -260,6 +260,7 @@ def run(ctx):
                 dict(ignore_rank=True, ignore_residuals=True)][i % 4]
 
     nper = 1 if ctx.tier == "quick" else 10
+    quick_tier = ctx.tier == "quick"
     for system in SYSTEMS:
         nv = H.nonvanishing(system)
         rows_sys = rel_rows[system]
@@ -407,6 +408,25 @@ def run(ctx):
                 obs = call(mkdf(cols), system, kwc, via=via)
                 m = record(system, relname, cols, kwc, obs, scale, "subset", via=via)
                 oracle(cols, S, bx, kwc, obs, m)
+            # --- A'. insufficient sets that also list vanishing components (as zero columns), in any column order: the
+            # refusal rests on a numerical rank, and these are the matrices whose round-off singular values are
+            # closest to a rank cutoff.  The corpus entries were minimised from a seeded change (rcond of lstsq).
+            corpus = {"cubic": [["c12", "c22", "c23", "c36"], ["c11", "c15", "c23", "c46", "c56"]],
+                      "hexagonal": [["c22", "c23", "c25", "c26", "c55", "c56", "c66"]]}.get(system, []) if rep == 0 else []
+            for k in range(len(corpus) + (12 if quick_tier else 40)):
+                if system == "triclinic" or not nv:
+                    break
+                if k < len(corpus):
+                    S = [SYMS.index(x) for x in corpus[k]]
+                else:
+                    S = rng.sample(range(NSYM), rng.randint(2, 9))
+                if H.sufficient(system, sorted(S)):
+                    continue
+                cols, bx, scale = build(S, rng.randint(1, 3), lead_v=rng.random() < 0.5)
+                obs = call(mkdf(cols), system, {})
+                m = record(system, relname, cols, {}, obs, scale, "insufficient-mixed")
+                oracle(cols, S, bx, {}, obs, m)
+                ctx.count("insufficient sets incl. vanishing components")
             # --- B. perturbations of one redundant supplied value
             for d_i, dmul in enumerate([0, 0.01, 0.1, 0.2, 0.5, 2, 50, 1.2, 1.1]):
                 if not nv or system == "triclinic":
